@@ -59,6 +59,19 @@ func SignatureSchemes(ids []uint16) []signaturehash.Algorithm {
 	return algorithms
 }
 
+// CommonSignatureSchemes returns the schemes of offered, in the peer's order,
+// that are also in local: an endpoint signs only with schemes both sides allow.
+func CommonSignatureSchemes(offered, local []signaturehash.Algorithm) []signaturehash.Algorithm {
+	common := make([]signaturehash.Algorithm, 0, len(offered))
+	for _, scheme := range offered {
+		if slices.Contains(local, scheme) {
+			common = append(common, scheme)
+		}
+	}
+
+	return common
+}
+
 func FindMatchingCipherSuite(a, b []dtlsconfig.CipherSuite) (dtlsconfig.CipherSuite, bool) {
 	for _, p1 := range a {
 		for _, p2 := range b {
